@@ -20,3 +20,22 @@ CHECKS["C19"] = dict(
     assumptions=["sync.Pool hand-over is deterministic only under GOMAXPROCS(1) and without two intervening GCs; a dropped pooled buffer lowers the non-trivial count but cannot cause an alarm",
                  "identity of a buffer = address of its backing array (all buffers of a case are kept alive so addresses are not reused)"],
 )
+
+CHECKS["C04"] = dict(
+    test="TestC04", level="exploration",
+    quick=dict(shards=8, checks=12000, timeout=300),
+    thorough=dict(shards=16, checks=300000, timeout=2400, shrinktime="120s"),
+    rule="rapid-generated codec configurations (length-field widths 1/2/4/8 x byte order x offset x adjustment x strip; stand-alone "
+         "prepender paired with the matching decoder incl. adjustments that put the 2^8/2^16/2^32 field capacity within reach; varint; "
+         "delimiter 1-4 bytes incl. self-overlapping ones; fixed) x 1-6 payloads with boundary-biased lengths x 8 carrier types x "
+         "fragmentations (1-byte reads, one read, random cuts). Frames come from the shipped encoder (judged by an independent reference "
+         "deframer: header must agree with body or the encoder must raise) or from the reference framer; the decoder is called once per "
+         "frame exactly like the read loop and must deliver the reference message and stop exactly at the frame end; 2% of cases run through "
+         "a real channel and read loop. Non-trivial = >=2 frames in the stream and a read boundary strictly inside a frame. Distinct by case hash.",
+    required=["codec:lf", "codec:prep", "codec:varint", "codec:delim", "codec:fixed", "width:1", "width:2", "width:4", "width:8",
+              "one-byte-reads", "length-field-at-capacity", "frame-at-max", "layer:channel", "multi-frame", "cut-inside-frame",
+              "carrier:bytes", "carrier:string", "carrier:buffer", "carrier:breader", "carrier:sreader", "carrier:bb", "carrier:reader", "carrier:short"],
+    assumptions=["reference framers follow the parameter documentation (Netty semantics for the length-field codec)",
+                 "delimiter payloads are admissible only if the first delimiter occurrence in payload+delimiter is at len(payload)",
+                 "the consumer reads every delivered message to its end before returning, as codec users must"],
+)
